@@ -124,9 +124,6 @@ class LArr:
             raise Unsupported("iteration over a lazy array of symbolic length")
         return (self[i] for i in range(builtins.int(self.shape[0])))
 
-    def __array__(self, dtype=None, copy=None):
-        raise Unsupported("conversion of a lazy array to a NumPy array")
-
     @staticmethod
     def from_array(a, tag=None):
         """concrete ndarray / SymArray -> LArr (symbolic indexing = uninterpreted lookup for large arrays)"""
